@@ -126,6 +126,42 @@ def swapped_roles(a, b, amb, m, ref, gap, terminal, local):
     return None
 
 
+def matrix_is_a_value(dtype, how):
+    """a SubstitutionMatrix keeps the scores it was built with: later writes to the caller's array (or to a buffer the
+    array is a view of) do not reach it, and its own score table cannot be written"""
+    table = np.zeros((5, 5), dtype=dtype)
+    table[:4, :4] = np.where(np.eye(4, dtype=bool), 5, -4)
+    src = {"the array itself": table[:4, :4].copy(), "a slice of a larger table": table[:4, :4], "a transposed view": table[:4, :4].T,
+           "a reshaped view": table[:4, :4].copy().reshape(16).reshape(4, 4)}[how]
+    base = src if src.base is None else src.base
+    m = align.SubstitutionMatrix(ALPH, ALPH, src)
+    before = m.score_matrix().tolist()
+    s1, s2 = seq.NucleotideSequence("ACGTT"), seq.NucleotideSequence("AGGT")
+    first = align.align_optimal(s1, s2, m, gap_penalty=-6)[0].score
+    try:
+        base[...] = 1            # the caller goes on using his buffer
+    except ValueError:
+        pass                      # (the constructor may have write-protected exactly this array)
+    if m.score_matrix().tolist() != before:
+        return f"writing to the caller's buffer afterwards changed the matrix built from {how} ({np.dtype(dtype)})"
+    again = align.align_optimal(s1, s2, m, gap_penalty=-6)[0].score
+    if again != first:
+        return f"the same alignment scores {first}, then {again}"
+    try:
+        m.score_matrix()[0, 0] = 99
+    except ValueError:
+        pass
+    if m.score_matrix().tolist() != before:
+        return "score_matrix() hands out the writable score table"
+    return None
+
+
+for dtype in (np.int32, np.int64, np.int16, np.uint8):
+    for how in ("the array itself", "a slice of a larger table", "a transposed view", "a reshaped view"):
+        R.check("substitution matrix accessors and transpose() agree with the score table", "matrix keeps the scores it was built with",
+                {"dtype": str(np.dtype(dtype)), "built from": how}, lambda dtype=dtype, how=how: matrix_is_a_value(dtype, how))
+
+
 _mrng = np.random.default_rng(8)
 RECT = _mrng.integers(-5, 6, size=(4, len(A2))).astype(np.int32)
 RECT_MATRIX = align.SubstitutionMatrix(A1, A2, RECT)
